@@ -398,20 +398,28 @@ fn build_eq_expr(
     let cmp = &field.hattrs.cmp;
     let this = source.this_of(field);
 
+    // What has to be `Eq` is what `==` compares: a more specific `#[partial_eq(..)]` / `#[partial_ord(..)]`
+    // decides that, `#[eq(..)]` / `#[ord(..)]` only say that the field is customised.
+    let build_checker = || {
+        for a in [&cmp.partial_eq, &cmp.eq, &cmp.partial_ord, &cmp.ord] {
+            if a.by.is_some() {
+                return quote!();
+            }
+            if let Some(key) = &a.key {
+                return key.build_eq_checker(this.clone());
+            }
+        }
+        quote!()
+    };
+
     cmp.eq.push_bounds_to(use_bounds, wcb);
-    if cmp.eq.by.is_some() {
-        return Ok(quote!());
-    }
-    if let Some(key) = &cmp.eq.key {
-        return Ok(key.build_eq_checker(this));
+    if cmp.eq.by.is_some() || cmp.eq.key.is_some() {
+        return Ok(build_checker());
     }
 
     cmp.ord.push_bounds_to(use_bounds, wcb);
-    if cmp.ord.by.is_some() {
-        return Ok(quote!());
-    }
-    if let Some(key) = &cmp.ord.key {
-        return Ok(key.build_eq_checker(this));
+    if cmp.ord.by.is_some() || cmp.ord.key.is_some() {
+        return Ok(build_checker());
     }
 
     if let Some(bad) = cmp.bad_attr() {
